@@ -16,6 +16,7 @@ mod p04;
 mod p05;
 mod p06;
 mod p07;
+mod p08;
 mod bcmodel;
 mod p09;
 mod p10;
@@ -37,6 +38,7 @@ fn make(id: &str, tier: Tier) -> Option<Box<dyn Property>> {
         "C07" => Box::new(p07::P07::new(tier)),
         "C13" => Box::new(p13::P13::new(tier)),
         "C14" => Box::new(p14::P14::new(tier)),
+        "C08" => Box::new(p08::P08::new(tier)),
         "C09" => Box::new(p09::P09::new(tier)),
         _ => return None,
     })
